@@ -63,26 +63,37 @@ def rule_H3(ctx) -> None:
     ctx.analysed("Enum.try_value")
     paths = Interp(mod).run(fn)
     ctx.count(len(paths))
+    vparam = N(fn.args.args[1].arg)
     raises = [p for p in paths if p.outcome == "raise"]
-    handler_ok = False
+    unguarded = None
+    miss_ok = hit_ok = False
+    miss_bad = None
     for p in paths:
-        if any(k[0] == "raises" and v and "KeyError" in k[1] for k, v in p.valuation.items()):
-            v = p.value
-            if p.outcome == "return" and v is not None and v[0] == "call" and dict(v[3]).get("name") == C(None) and dict(v[3]).get("value") == N(fn.args.args[1].arg):
-                handler_ok = True
-    lookups_outside_try = []
-    for n in ast.walk(fn):
-        if isinstance(n, ast.Subscript) and "_value_map_" in ast.unparse(n.value):
-            inside = any(isinstance(t, ast.Try) and any(n is x for b in t.body for x in ast.walk(b)) and any(
-                h.type is None or "KeyError" in ast.unparse(h.type) or ast.unparse(h.type) in ("Exception", "LookupError") for h in t.handlers) for t in ast.walk(fn))
-            if not inside:
-                lookups_outside_try.append(n)
+        if p.outcome != "return" or p.value is None:
+            continue
+        keyerr = [v for k, v in p.valuation.items() if k[0] == "raises" and "KeyError" in k[1]]
+        none_atoms = [(k, v) for k, v in p.valuation.items() if k[0] == "op" and k[1] == "is" and k[3] == C(None) and "_value_map_" in show(k[2])]
+        subs = [t for t in walk(p.value) if t[0] == "sub" and "_value_map_" in show(t[1])]
+        if subs and not keyerr:
+            unguarded = show(subs[0])
+        missed = (any(keyerr)) or any(v for _, v in none_atoms)
+        hit = (keyerr and not any(keyerr)) or any(not v for _, v in none_atoms)
+        v = p.value
+        if missed:
+            if v[0] == "call" and dict(v[3]).get("name") == C(None) and dict(v[3]).get("value") == vparam:
+                miss_ok = True
+            else:
+                miss_bad = show(v)
+        elif hit and "_value_map_" in show(v):
+            hit_ok = True
     if raises:
         ctx.refuted("H3", "try_value:total", "raises", mod.loc(fn), "try_value has a raising path: undefined numbers are rejected where a member is expected", "E.try_value(7)")
-    elif lookups_outside_try:
-        ctx.refuted("H3", "try_value:total", "unguarded-lookup", mod.loc(lookups_outside_try[0]), "the value-map lookup is not protected by `except KeyError`", "E.try_value(7)")
-    elif not handler_ok and not any(".get(" in ast.unparse(n) for n in ast.walk(fn) if isinstance(n, ast.Call)):
-        ctx.refuted("H3", "try_value:total", "no-open-member", mod.loc(fn), "the KeyError handler does not build a member with name=None and the given value", "E.try_value(7).value == 7")
+    elif unguarded:
+        ctx.refuted("H3", "try_value:total", "unguarded-lookup", mod.loc(fn), f"the value-map lookup {unguarded} is not protected by `except KeyError`", "E.try_value(7)")
+    elif miss_bad or not miss_ok:
+        ctx.refuted("H3", "try_value:total", "no-open-member", mod.loc(fn), f"for a number without a member try_value does not build a member with name=None and the given value ({miss_bad})", "E.try_value(7).value == 7")
+    elif not hit_ok:
+        ctx.inconclusive("H3", "try_value:total", "no path returning the member found in the value map", mod.loc(fn))
     else:
         ctx.proved("H3", "try_value:total", mod.loc(fn))
     # sites where numbers arrive
@@ -95,7 +106,7 @@ def rule_H3(ctx) -> None:
         ctx.refuted("H3", "decode:uses-try_value", ",".join(sorted({d[1] for d in dec})), init.loc(init.func("Message._postprocess_single")),
                     "enum numbers from the wire are not converted with the open constructor try_value", "M().parse(b'\\x08\\x07') for an enum without member 7")
     dg = init.func("Message._get_field_default_gen")
-    paths = Interp(init).run(dg)
+    paths = Interp(init, fork_ifexp=True).run(dg)
     en = [p for p in paths if any("issubclass" in show(k) and v for k, v in p.valuation.items())]
     if en and all(p.value is not None and show(p.value).endswith(".try_value") for p in en):
         ctx.proved("H3", "default:uses-try_value", init.loc(dg))
@@ -304,6 +315,32 @@ def rule_H7(ctx) -> None:
         ctx.proved("H7", name, mod.loc(fn), f"{n} returning paths, all out of _value_map_")
 
 
+def rule_H9(ctx) -> None:
+    """the number -> member and name -> member tables of an enum class are written while the class is built and never again:
+    a lookup (try_value, __call__, from_string, decoding) that stores into them changes the set of members of the class -
+    a placeholder for an undefined number would become a 'member', found by iteration and by later lookups"""
+    mod = ctx.repo.mod(M_ENUM)
+    writers = []
+    for q, fn in mod.functions():
+        for n in ast.walk(fn):
+            tgts = n.targets if isinstance(n, ast.Assign) else [n.target] if isinstance(n, (ast.AugAssign, ast.AnnAssign)) else []
+            for t in tgts:
+                for x in (t.elts if isinstance(t, (ast.Tuple, ast.List)) else [t]):
+                    if isinstance(x, ast.Subscript) and isinstance(x.value, ast.Attribute) and x.value.attr in ("_value_map_", "_member_map_"):
+                        writers.append((q, n, x.value.attr))
+            if isinstance(n, ast.Call) and isinstance(n.func, ast.Attribute) and n.func.attr in ("setdefault", "update", "pop", "clear", "__setitem__") \
+                    and isinstance(n.func.value, ast.Attribute) and n.func.value.attr in ("_value_map_", "_member_map_"):
+                writers.append((q, n, n.func.value.attr))
+    rogue = [(q, n, a) for q, n, a in writers if q != "EnumType.__new__"]
+    if rogue:
+        q, n, a = rogue[0]
+        ctx.refuted("H9", "enum-tables:written-at-class-creation-only", f"{q}:{a}", mod.loc(n),
+                    f"{q} stores into {a} of the enum class: a lookup changes the class (the placeholder of an undefined number becomes a member that iteration, len() and later "
+                    "lookups by number return)", "E.try_value(7); list(E) / E(7)")
+    else:
+        ctx.proved("H9", "enum-tables:written-at-class-creation-only", mod.rel, f"{len(writers)} stores through attributes, all in EnumType.__new__ (which fills its local tables)")
+
+
 def rule_H8(ctx) -> None:
     """enums are open on the JSON side as well: a number read from a dict / JSON is kept as it is or turned into a member
     with the open lookup (try_value); the closed lookup `EnumClass(number)` raises for numbers the schema does not list -
@@ -355,6 +392,6 @@ def rule_H8(ctx) -> None:
 
 
 def run(ctx) -> None:
-    for name, fn in (("H8", rule_H8), ("H7", rule_H7), ("H1", rule_H1), ("H2", rule_H2), ("H3", rule_H3), ("H4", rule_H4), ("H5", rule_H5), ("H6", rule_H6), ("T2", codec.rule_T2), ("T2b", codec.rule_T2b)):
+    for name, fn in (("H9", rule_H9), ("H8", rule_H8), ("H7", rule_H7), ("H1", rule_H1), ("H2", rule_H2), ("H3", rule_H3), ("H4", rule_H4), ("H5", rule_H5), ("H6", rule_H6), ("T2", codec.rule_T2), ("T2b", codec.rule_T2b)):
         ctx.rules_run.append(name)
         fn(ctx)
